@@ -129,6 +129,14 @@ func checkC19(c *Ctx) {
 	for _, f := range realFileLeak(dir) {
 		c.Violation(f.Key, f.What, nil)
 	}
+	for _, f := range realFileShared(dir) {
+		c.Violation(f.Key, f.What, map[string]interface{}{"mode": "same-file-twice"})
+	}
+	c.MustTLC(TLCOpts{Module: "Registry", Cfg: "Registry.check"})
+	c.MustTLC(TLCOpts{Module: "Registry", Cfg: "Registry.check", Consts: map[string]string{"Atomicity": `"two"`}, ExpectViolation: true})
+	for _, f := range registryRaces(c.Pick(400, 5000)) {
+		c.Violation(f.Key, f.What, map[string]interface{}{"mode": "racing-registrations"})
+	}
 	for _, f := range redirectAllLevels() {
 		c.Violation(f.Key, f.What, nil)
 	}
@@ -660,6 +668,128 @@ func redirectAllLevels() (finds []Finding) {
 		if log.Writer() != os.Stderr {
 			add("C19/redirect:restore", "restore() must reset the output to os.Stderr (documented)")
 		}
+	}
+	return finds
+}
+
+// ---- racing registrations (Registry.tla) ----
+
+type c19Enc struct {
+	zapcore.Encoder
+	owner int
+}
+
+func (e c19Enc) Clone() zapcore.Encoder { return c19Enc{e.Encoder.Clone(), e.owner} }
+
+// registryRaces: G goroutines released together register the same fresh name; exactly one may succeed, and the
+// registry must hold the winner's constructor / factory afterwards.
+func registryRaces(rounds int) (finds []Finding) {
+	add := func(key, f string, a ...interface{}) {
+		if len(finds) < 4 {
+			finds = append(finds, Finding{Key: key, What: fmt.Sprintf(f, a...)})
+		}
+	}
+	const G = 8
+	for r := 0; r < rounds && len(finds) == 0; r++ {
+		name := fmt.Sprintf("race-enc-%d-%d", os.Getpid(), r)
+		scheme := fmt.Sprintf("racing%dx%d", os.Getpid(), r)
+		var start, ready sync.WaitGroup
+		start.Add(1)
+		encOK, sinkOK := make([]bool, G), make([]bool, G)
+		var spin int32
+		var done sync.WaitGroup
+		var sinkErr atomic.Value
+		for g := 0; g < G; g++ {
+			ready.Add(1)
+			done.Add(1)
+			go func(g int) {
+				defer done.Done()
+				ready.Done()
+				start.Wait()
+				atomic.AddInt32(&spin, 1)
+				for atomic.LoadInt32(&spin) < G {
+				}
+				encOK[g] = zap.RegisterEncoder(name, func(cfg zapcore.EncoderConfig) (zapcore.Encoder, error) {
+					return c19Enc{zapcore.NewJSONEncoder(cfg), g}, nil
+				}) == nil
+				serr := zap.RegisterSink(scheme, func(u *url.URL) (zap.Sink, error) {
+					return &countSink{id: fmt.Sprint(g)}, nil
+				})
+				sinkOK[g] = serr == nil
+				if serr != nil {
+					sinkErr.Store(fmt.Sprintf("g%d: %v", g, serr))
+				}
+			}(g)
+		}
+		ready.Wait()
+		start.Done()
+		done.Wait()
+		for kind, oks := range map[string][]bool{"encoder name": encOK, "sink scheme": sinkOK} {
+			winners := []int{}
+			for g, ok := range oks {
+				if ok {
+					winners = append(winners, g)
+				}
+			}
+			if len(winners) == 0 {
+				add("HARNESS/C19-registration-refused", "round %d: nobody could register %s %q / %q: %v", r, kind, name, scheme, sinkErr.Load())
+				continue
+			}
+			if len(winners) != 1 {
+				add("C19/registry:duplicate-accepted", "round %d: %d goroutines registered the same new %s at the same time and %d of them were told it succeeded (winners %v): a registration that should have failed changed the registry", r, G, kind, len(winners), winners)
+				continue
+			}
+			if kind == "sink scheme" {
+				ws, _, err := zap.Open(scheme + "://x")
+				if err != nil {
+					add("C19/registry:winner-not-registered", "round %d: Open(%s://x) after a successful registration: %v", r, scheme, err)
+					continue
+				}
+				_ = ws
+			}
+		}
+	}
+	return finds
+}
+
+// realFileShared: the same file configured as a destination more than once (twice in one Open, as output and
+// error output, by two loggers): every configured destination receives every write, and existing content stays.
+func realFileShared(dir string) (finds []Finding) {
+	add := func(key, f string, a ...interface{}) { finds = append(finds, Finding{Key: key, What: fmt.Sprintf(f, a...)}) }
+	p := filepath.Join(dir, "shared.log")
+	os.WriteFile(p, []byte("existing line\n"), 0o644)
+	ws, closeAll, err := zap.Open(p, "file://localhost"+p)
+	if err != nil {
+		add("C19/open:error", "Open(%q twice): %v", p, err)
+		return
+	}
+	ws.Write([]byte("hello\n"))
+	ws.Sync()
+	closeAll()
+	got, _ := os.ReadFile(p)
+	if string(got) != "existing line\nhello\nhello\n" {
+		add("C19/destination-missed-write", "a file with existing content opened twice by one Open (plain path and file URL), one write of %q: the file holds %q, want the existing line followed by two copies", "hello\n", got)
+	}
+	// two independent handles, writes interleaved
+	os.WriteFile(p, []byte("existing line\n"), 0o644)
+	a, ca, err1 := zap.Open(p)
+	b, cb, err2 := zap.Open(p)
+	if err1 != nil || err2 != nil {
+		add("C19/open:error", "Open(%q) twice: %v %v", p, err1, err2)
+		return
+	}
+	want := "existing line\n"
+	for i := 0; i < 4; i++ {
+		la, lb := fmt.Sprintf("A%d says something\n", i), fmt.Sprintf("B%d\n", i)
+		a.Write([]byte(la))
+		b.Write([]byte(lb))
+		want += la + lb
+	}
+	ca()
+	cb()
+	got, _ = os.ReadFile(p)
+	if string(got) != want {
+		add("C19/destination-missed-write", "two Open calls on the same file, writes interleaved: the file holds %q, want %q (every destination receives every write)", got, want)
 	}
 	return finds
 }
